@@ -7,5 +7,11 @@ CHECKS = {
     note='Trusted: Coq kernel + vm_compute; the hand-written model (Model/CostSpec.v) corresponds to cost_spec.py only as far as the differential run shows (exhaustive over the property\'s finite space); constraints are modelled as opaque predicates (satisfied-set).',
     technique='Coq proof (induction on registration list, Permutation) + exhaustive model/impl correspondence via vm_compute',
     design_ref='§C15'),
+ 'C19': dict(
+    category='proof',
+    text='Coq theorems (Props/C19.v) over an exact-rational model of DUCCIO.__call__ and BaseRegularizer: for ALL rational strengths, costs, targets, epochs and schedule lengths the penalty is non-negative, zero iff every cost <= target (positive strengths), monotone and strictly growing in each excess; the effective strength is monotone in the epoch, s/100 at epoch 0, s from half the schedule on and never above s; derived strengths are positive and finite above target and 0 otherwise. Tied to /repo by a differential run over all 1325 (epoch, n_epochs) pairs (value, autograd gradient, derived strengths) evaluated with vm_compute.',
+    note='Trusted: Coq kernel + vm_compute; float32 arithmetic of the implementation is modelled by exact rationals and compared within 2^-20 relative; autograd is observed, not proved; model.get_cost is an input of the model.',
+    technique='Coq proof over Q (lra/nra, induction on the metric list) + model/impl differential run via vm_compute',
+    design_ref='§C19'),
 }
 PENDING_REASON = 'check not built yet in this revision of /verif (planned: DESIGN.md §8); not claimed until its theorem + correspondence run exist'
